@@ -79,6 +79,7 @@ fn opt_tok(tag: i64, o: Option<(u64, i64)>) -> Out {
 /// take ownership of a returned value: record it and forget it (it is not destroyed by the world)
 pub(crate) fn ret<T: Tokish>(t: T) -> (u64, i64) {
     let r = (t.uid(), t.val());
+    crate::comps::note_ret(r.0);
     std::mem::forget(t);
     r
 }
@@ -669,6 +670,7 @@ fn fmt_effects(code: i64, p: &[i64], m: u64, mut d: Vec<u64>) -> Out {
 
 pub fn run_history(ints: &[i64]) -> Vec<Out> {
     let _ = take_effects();
+    let _ = take_ledger();
     FAULT.with(|f| f.set(0));
     let mut ex = Exec::new();
     let mut tr = Vec::new();
@@ -714,6 +716,10 @@ pub fn run_history(ints: &[i64]) -> Vec<Out> {
                 // the world may be in an arbitrary state: stop here
                 std::mem::forget(ex);
                 let _ = take_effects();
+                // ledger entry (C08), marked incomplete: values still inside the forgotten world are unaccounted
+                let mut l = take_ledger();
+                l.push(-1);
+                tr.push(l);
                 return tr;
             }
         }
@@ -723,6 +729,11 @@ pub fn run_history(ints: &[i64]) -> Vec<Out> {
     }
     // leaving the history: whatever is still in the world is destroyed now, unobserved
     drop(ex);
-    let _ = take_effects();
+    let (_, d) = take_effects();
+    // ledger entry (C08): [98, exposed, nC, C.., nR, R.., nD, D..] with D = what the teardown destroyed
+    let mut l = take_ledger();
+    l.push(d.len() as i64);
+    l.extend(d.iter().map(|&u| u as i64));
+    tr.push(l);
     tr
 }
